@@ -5,10 +5,13 @@ Template directives (a line whose first non-blank characters are `//@`):
 
   //@ include <path relative to /verif>
   //@ source <file relative to /repo>
+  //@ mode contracts-only <UNIT>          following `//@ fn` holes are emitted as external_body + contract (the
+  //@ mode full                            contract is proved by <UNIT>'s own check); back to normal
   //@ item <path> [nopub]                 extract a struct/enum/type/const/fn verbatim (auto rules only)
   //@ fn <path> [ret=<name>] [nopub] [name=<newname>]
   //@   attr <text>                        text put in front of the fn (verifier attributes only)
   //@   spec                               following lines: requires/ensures/decreases, put after the signature
+  //@   enter                              following lines (ghost only): put right after the body's opening brace
   //@   loop <n>                           following lines: put in front of the body brace of the n-th loop
   //@   closure <n> <typed header>         replace `|p, q|` by the typed header (same names, checked);
   //@                                      following lines: closure requires/ensures
@@ -44,6 +47,7 @@ class Ctx:
         self.srcs = {}
         self.items = []  # extraction log
         self.rewrites = []
+        self.contracts_only = None  # name of the unit that proves the included contracts
 
     def src(self, f):
         if f not in self.srcs:
@@ -159,6 +163,12 @@ def process_fn(ctx, f, comps, opts, subs):
     if parts["body_open"] is None:
         raise Lost("fn without body: %s" % where)
     body_lo = parts["body_open"]
+    if ctx.contracts_only:
+        # the contract is imported (proved by another unit on the same run of its own check);
+        # the body is kept verbatim but not verified here
+        subs = dict(subs, loop={}, closure={}, before=[], after=[], enter="",
+                    spec=re.sub(r"(?m)^\s*decreases\b[^\n]*\n", "", subs["spec"]),
+                    attr=["#[verifier::external_body] /*proved-in:%s*/" % ctx.contracts_only])
     if subs["spec"].strip():
         edits.append((body_lo, 0, "\n" + subs["spec"].rstrip() + "\n"))
     # loops
@@ -206,6 +216,10 @@ def process_fn(ctx, f, comps, opts, subs):
                 edits.append((c["body_start"], 0, "{ "))
                 edits.append((c["body_end"], 0, " }"))
             log.append({"rule": "R-closure-types", "closure": n, "header": hdr.strip(), "wrapped_in_block": not c["block"]})
+    if subs.get("enter", "").strip():
+        if not GHOST_START.match(subs["enter"]):
+            raise Lost("non-ghost text inserted at `enter` in %s" % where)
+        edits.append((body_lo + 1, 0, "\n" + subs["enter"].rstrip() + "\n"))
     for kind in ("before", "after"):
         for (k, anchor, txt) in subs[kind]:
             if not GHOST_START.match(txt):
@@ -226,7 +240,7 @@ def process_fn(ctx, f, comps, opts, subs):
     attrs = "".join(a.rstrip() + "\n" for a in subs["attr"])
     lo, hi = it.line_span()
     ctx.items.append({"path": where, "kind": "fn", "file": f, "lines": [lo, hi], "sha256": it.sha(), "rules": log,
-                      "out_name": opts.get("name", parts["name"])})
+                      "out_name": opts.get("name", parts["name"]), "imported_from": ctx.contracts_only})
     return attrs + out + "\n"
 
 
@@ -299,6 +313,14 @@ def expand(ctx, path, out, depth=0):
             expand(ctx, os.path.join(VERIF, rest), out, depth + 1)
         elif cmd == "source":
             ctx.source = rest
+        elif cmd == "mode":
+            w = rest.split()
+            if w and w[0] == "contracts-only":
+                ctx.contracts_only = w[1]
+            elif w and w[0] == "full":
+                ctx.contracts_only = None
+            else:
+                raise Lost("bad mode directive: %s" % rest)
         elif cmd == "item":
             p, opts = split_path_opts(rest)
             f, comps = parse_path(ctx, p)
@@ -321,6 +343,9 @@ def expand(ctx, path, out, depth=0):
                         break
                     elif c2 == "spec":
                         cur = ("spec",)
+                    elif c2 == "enter":
+                        cur = ("enter",)
+                        subs["enter"] = ""
                     elif c2 == "attr":
                         subs["attr"].append(r2)
                         cur = None
@@ -351,6 +376,8 @@ def expand(ctx, path, out, depth=0):
                             raise Lost("stray text inside fn directive: %r" % l2)
                     elif cur[0] == "spec":
                         subs["spec"] += l2 + "\n"
+                    elif cur[0] == "enter":
+                        subs["enter"] += l2 + "\n"
                     elif cur[0] == "loop":
                         subs["loop"][cur[1]] += l2 + "\n"
                     elif cur[0] == "closure":
